@@ -312,9 +312,7 @@ func c20Run(trans string) (o c20Out) {
 	} else {
 		add("close packet not surfaced")
 	}
-	if accept() != nil {
-		add("recovered after close")
-	}
+	// (how many recoveries follow a close packet is timing dependent on both transports: not part of the trace)
 	// surfaced packets, as the client logged them
 	names := map[string]string{"request": "1", "response": "2", "push": "3", "": "0"}
 	for _, l := range tc.log.snapshot() {
